@@ -111,6 +111,7 @@ fn run_one(s: &S01, word: Wd, backend: &WrBackend, ctx: &mut Ctx) {
                     2 + ((*n - space) / wbits).min(3) as u64
                 };
                 ctx.sig(&[e as u64, word as u64, 0, space as u64, *n as u64, prev]);
+                ctx.cover("wr.space_x_n", (e as u64) << 40 | (word as u64) << 32 | (space as u64) << 8 | *n as u64);
                 ctx.probe_if(*n == 64 && space == wbits, "c01.n64_empty_buffer");
                 ctx.probe_if(rel >= 4, "c01.bits_span_3_words");
                 ctx.probe_if(*n == 0, "c01.n0");
@@ -147,6 +148,7 @@ fn run_one(s: &S01, word: Wd, backend: &WrBackend, ctx: &mut Ctx) {
                     2 + ((len - space) / wbits).min(3) as u64
                 };
                 ctx.sig(&[e as u64, word as u64, 1, space as u64, rel, (len % wbits) as u64, prev]);
+                ctx.cover("wr.space_x_unary_class", (e as u64) << 40 | (word as u64) << 32 | (space as u64) << 8 | rel << 4 | ((len % wbits == 0) as u64));
                 ctx.probe_if(rel == 1, "c01.unary_exact_fill");
                 ctx.probe_if(rel >= 4, "c01.unary_zero_run_2_words");
                 ctx.probe_if(len > space && (len - space) % wbits == 0, "c01.unary_ends_on_boundary");
@@ -508,6 +510,14 @@ impl Family for C01 {
             "c01.flush_nothing_pending",
             "c01.flush_idempotent_checked",
         ]
+    }
+
+    fn required_cover(t: Tier) -> Vec<(&'static str, usize)> {
+        // (endianness, word W, free bits in the buffer 1..=W, width n 0..=64): 2 x 248 x 65 = 32240 pairs
+        match t {
+            Tier::Quick => vec![("wr.space_x_n", 30000)],
+            Tier::Thorough => vec![("wr.space_x_n", 32240)],
+        }
     }
 
     fn runs(t: Tier) -> u64 {
